@@ -18,7 +18,19 @@ RULE = ("case = (way of obtaining an object) x (element type Int|Float|String|Re
         "ValueError, leaves the object's dump and its container intact and never reaches free/realloc (objects are laid out so "
         "that ASan reports a free of them at once), also after a forced collection; heap objects deleted once are finalised "
         "exactly once (Probe ledger). The full obtain x type x operation matrix is enumerated at container sizes 1, 3, 8 in both "
-        "tiers. non-trivial = a non-heap object x freeing/reallocating op, or an embedded element obtained through an iterator. "
+        "tiers. Embedded elements are also reached backwards (iter_last / iter_prev), by negative index and, for map values, "
+        "through an iteration cursor (get(table, key pointer)); the stack forms range() / slice() / zip() / enumerate() / "
+        "filter() / map() are themselves objects under test (type, stack class, freeing ops refused, still iterable). "
+        "'sized' family (a quarter of the cases + a full enumeration): plain types of 1, 3, 5, 8, 12, 16, 20, 33 and 75 bytes - "
+        "static ones and run-time types made by new(Type, name, size) - obtained by new / new_raw / new_root / alloc / "
+        "alloc_raw / alloc_root / copy and as element of Array / List, key / value of Table / Tree (other side: any of these "
+        "types) in containers that were constructed with the elements, filled one by one, shrunk from the front / by rem, "
+        "or assigned / copied from another container; oracle: size(type) == declared size, type_of == that type and the "
+        "allocation class, every one of the size(type) bytes reads back what was stored, writing all of them through the "
+        "handed-out pointer changes that object only (byte-wise dump of the whole container incl. every element's type), "
+        "freeing ops refused and harmless, the container takes one more element and is deleted cleanly; heap objects are "
+        "released once by the matching del / del_raw / del_root / dealloc_raw (ASan). non-trivial = a non-heap object x "
+        "freeing/reallocating op, or an embedded element obtained through an iterator, or a type whose size is not a multiple of 8. "
         "distinct = distinct case JSON.")
 ASSUMPTIONS = ["del / del_root of a non-heap object is silently ignored by the collector build (known finding del-nonheap-silent): intactness is still checked, the missing exception is not reported",
                "Terminal is excluded (it is the argument-list sentinel of the variadic macros)", "destruct() applied by hand to an embedded element is out of contract and not generated"]
@@ -35,6 +47,28 @@ FREE_OPS = ["delkeep", "delrootkeep", "delrawkeep", "dealloc", "deallocraw"]
 STR_OPS = ["resize-more", "resize-less", "concat", "append", "assign-longer"]
 HISTS = ["direct", "direct", "assign-empty", "assign-full", "copy-empty", "copy-full", "clear-refill"]
 TUP_OPS = ["push", "pop", "pop_at", "push_at", "concat", "resize", "assign"]
+# the stack forms range() / slice() / zip() / enumerate() / filter() / map() themselves as the object under test
+VIEWS = ["view-range", "view-slice", "view-zip", "view-enum", "view-filter", "view-map"]
+OBTAIN = OBTAIN + VIEWS
+# alternative entry points reaching an embedded element: backward iteration, negative index, Table/Tree get through an
+# iteration cursor (Table_Get's pointer fast path)
+VIAS = ["fwd", "fwd", "bwd", "neg", "cursor"]
+
+# ---- "sized" family: plain types of every size (static 3 / 16 / 20 / 75 bytes, run-time types of 1 / 5 / 12 / 33 bytes, Int)
+SIZED_TY = ["Tri", "Blob3", "Blob", "Blob20", "Blob75", "rt:1", "rt:5", "rt:12", "rt:33", "Int"]
+SIZED_WHERE = ["new", "new_raw", "new_root", "alloc", "alloc_raw", "alloc_root", "copy",
+               "array-get", "array-neg", "array-iter", "array-last", "list-get", "list-neg", "list-iter", "list-last",
+               "table-key", "table-val", "table-cursor", "tree-key", "tree-val", "tree-cursor"]
+SIZED_HIST = ["direct", "pushed", "shrunk", "assign", "copy"]
+TY_SIZE = {"Tri": 3, "Blob3": 3, "Blob": 16, "Blob20": 20, "Blob75": 75, "Int": 8}
+
+
+def ty_size(ty):
+    return int(ty[3:]) if ty.startswith("rt:") else TY_SIZE[ty]
+
+
+def ty_name(ty):
+    return "RT%s" % ty[3:] if ty.startswith("rt:") else ty
 
 
 def prepare(tier):
@@ -42,7 +76,21 @@ def prepare(tier):
 
 
 @st.composite
+def _sized(draw):
+    where = draw(st.sampled_from(SIZED_WHERE))
+    case = {"obtain": "sized", "ty": draw(st.sampled_from(SIZED_TY)), "where": where, "n": draw(st.integers(1, 10)),
+            "pos": draw(st.integers(0, 1000)),
+            "ops": draw(st.lists(st.sampled_from(FREE_OPS + ["collect", "write", "write"]), min_size=1, max_size=6))}
+    if "-" in where:
+        case["hist"] = draw(st.sampled_from(SIZED_HIST))
+        case["oty"] = draw(st.sampled_from(SIZED_TY))      # the other side of a Table / Tree; the former element type for hist=assign
+    return case
+
+
+@st.composite
 def _case(draw):
+    if draw(st.integers(0, 3)) == 0:
+        return draw(_sized())
     ob = draw(st.sampled_from(OBTAIN))
     et = draw(st.sampled_from(ETS + ["Tuple"]))
     n = draw(st.integers(1, 10))
@@ -54,6 +102,9 @@ def _case(draw):
         if h != "direct":
             case["hist"] = h
             case["was"] = draw(st.sampled_from(ETS))
+        via = draw(st.sampled_from(VIAS))
+        if via != "fwd":
+            case["via"] = via
     return case
 
 
@@ -65,8 +116,235 @@ def known():
     return load_known().get(ID, {})
 
 
+def _int_hex(v):
+    return (v & (2**64 - 1)).to_bytes(8, "little").hex()
+
+
+def build_sized(case):
+    """plain types of every size: (Prog, nontrivial).  Elements are heap objects of the type filled with one distinct byte
+    each (Int: the values 16+j); containers are dumped byte-wise (`peeks`: type name / the size(type) bytes of every item)."""
+    ty, where, n, ops = case["ty"], case["where"], case["n"], case["ops"]
+    P = Prog()
+    pos = case["pos"] * n // 1001
+    size = ty_size(ty)
+    T, O = "%20", "%21"
+
+    def deftype(slot, t):
+        if t.startswith("rt:"):
+            P.add("rtype %s %s %s" % (slot, ty_name(t), t[3:]))
+        else:
+            P.add("tmp %s t:%s" % (slot, t))
+        P.add("tsize %s" % slot, expect_ok(str(ty_size(t))))
+
+    deftype(T, ty)
+
+    def hexof(t, b):
+        return _int_hex(b) if t == "Int" else ("%02x" % b) * ty_size(t)
+
+    def mkobj(slot, tslot, t, b):
+        """a heap object of type t holding b in every byte (Int: the value b); returns its dump"""
+        if t == "Int":
+            P.add("new %%%d heap t:Int i:%d" % (slot, b))
+        else:
+            P.add("alloc %%%d heap %s" % (slot, tslot))
+            P.add("fill %%%d %02x" % (slot, b))
+        return hexof(t, b)
+
+    def ent(t, hx):
+        return "%s/%s" % (ty_name(t), hx)
+
+    nt = False
+    heap_way = "-" not in where
+    cur = [None]
+    if heap_way:
+        src = mkobj(30, T, ty, 0x11)
+        if where in ("new", "new_raw", "new_root"):
+            P.add("new %%1 %s %s %%30" % ({"new": "heap", "new_raw": "raw", "new_root": "root"}[where], T))
+            cur[0] = src
+        elif where in ("alloc", "alloc_raw", "alloc_root"):
+            P.add("alloc %%1 %s %s" % ({"alloc": "heap", "alloc_raw": "raw", "alloc_root": "root"}[where], T))
+            cur[0] = "00" * size
+        else:
+            P.add("copy %1 %30", lambda o: None if o.startswith("ok") else "copy failed " + o)
+            cur[0] = src
+        P.add("typeof %1", expect_ok("%s alloc=%d" % (ty_name(ty), HEAP)))
+        P.add("peek %1", expect_ok(cur[0]))
+        for op in ops:
+            if op == "collect":
+                P.add("collect")
+            elif op == "write":
+                b = 0xe0 + len(P.lines) % 16
+                if ty == "Int":
+                    continue
+                P.add("fill %%1 %02x" % b)
+                cur[0] = hexof(ty, b)
+            else:
+                continue          # freeing a heap object: once, at the end
+            P.add("peek %1", expect_ok(cur[0]))
+            P.add("typeof %1", expect_ok("%s alloc=%d" % (ty_name(ty), HEAP)))
+        # the source is a different object: untouched by writes through the new one
+        P.add("peek %30", expect_ok(src))
+        P.add({"new": "del %1", "alloc": "del %1", "copy": "del %1", "new_raw": "delraw %1", "alloc_raw": "deallocraw %1",
+               "new_root": "delroot %1", "alloc_root": "delroot %1"}[where])
+        if where == "alloc_raw":
+            P.add("zero %1")
+        return P, size % 8 != 0
+
+    kind = {"array": "Array", "list": "List", "table": "Table", "tree": "Tree"}[where.split("-")[0]]
+    hist, oty = case.get("hist", "direct"), case.get("oty", "Int")
+    ismap = kind in ("Table", "Tree")
+    iskey = where.endswith("key")
+    extra = 4 if hist == "shrunk" else 0
+    tot = n + extra
+    if ismap:
+        deftype(O, oty)
+        kt, vt = (ty, oty) if iskey else (oty, ty)
+        KT, VT = (T, O) if iskey else (O, T)
+    # element objects: slots 30.. (subject type), 60.. (other side of a map)
+    subj, oth = [], []
+    for j in range(tot):
+        subj.append(mkobj(30 + j, T, ty, 0x10 + j))
+        if ismap:
+            oth.append(mkobj(60 + j, O, oty, 0x40 + j))
+
+    def pair_args(j):
+        return ("%%%d %%%d" % (30 + j, 60 + j)) if iskey else ("%%%d %%%d" % (60 + j, 30 + j))
+
+    def ctor(slot, js, kt_=None):
+        if ismap:
+            P.add("new %s heap t:%s %s %s %s" % (slot, kind, KT, VT, " ".join(pair_args(j) for j in js)))
+        else:
+            P.add("new %s heap t:%s %s %s" % (slot, kind, T, " ".join("%%%d" % (30 + j) for j in js)))
+
+    def add_one(slot, j):
+        if ismap:
+            P.add("set %s %s" % (slot, pair_args(j)))
+        else:
+            P.add("push %s %%%d" % (slot, 30 + j))
+
+    ok_ = lambda o: None if o.startswith("ok") else "failed: " + o
+    if hist in ("direct", "shrunk"):
+        ctor("%0", range(tot))
+    elif hist == "pushed":
+        ctor("%0", [])
+        for j in range(tot):
+            add_one("%0", j)
+    else:
+        ctor("%4", range(tot))
+        if hist == "assign":
+            # the holder had other element types (other slot / node sizes) before
+            if ismap:
+                P.add("new %%0 heap t:%s t:Int %s i:1 %%%d i:2 %%%d" % (kind, O, 60, 60 + tot - 1))
+            else:
+                P.add("new %%0 heap t:%s t:Int i:1 i:2 i:3" % kind)
+            P.add("assign %0 %4", ok_)
+        else:
+            P.add("copy %0 %4", ok_)
+        P.add("del %4")
+        P.add("zero %4")
+    order = list(range(tot))
+    if hist == "shrunk":
+        # remove the four extras: from the front (Array memmove, List unlink of the head) / keys spread over the map
+        for j in range(extra):
+            if ismap:
+                P.add("rem %%0 %%%d" % ((30 if iskey else 60) + n + j))
+            else:
+                P.add("pop_at %0 i:0")
+        if not ismap:
+            order = list(range(extra, tot))
+        else:
+            order = list(range(n))
+    model = {}          # j -> current dump of the subject-typed item
+
+    def dump_expect():
+        if ismap:
+            items = []
+            for j in order:
+                a, b = ent(ty, model.get(j, subj[j])), ent(oty, oth[j])
+                items.append("%s:%s" % ((a, b) if iskey else (b, a)))
+            return sorted(items)
+        return [ent(ty, model.get(j, subj[j])) for j in order]
+
+    def add_dump():
+        want = dump_expect()
+
+        def chk(o, want=want):
+            if not (o.startswith("ok [") and o.endswith("]")):
+                return "container walk failed: " + o
+            got = o[4:-1].split(",") if len(o) > 5 else []
+            if ismap:
+                got = sorted(got)
+            return None if got == want else "container dump %s, expected %s" % (got[:12], want[:12])
+        P.add("peeks %0 kv" if ismap else "peeks %0", chk)
+
+    add_dump()
+    tj = order[pos]          # the item under test
+    if not ismap:
+        m = len(order)
+        how = where.split("-")[1]
+        if how == "get":
+            P.add("get %%0 i:%d %%1" % pos, any_ok)
+        elif how == "neg":
+            P.add("get %%0 i:%d %%1" % (pos - m), any_ok)
+        elif how == "iter":
+            P.add("iter %0 init %1", any_ok)
+            for _ in range(pos):
+                P.add("iter %0 next %1 %1", any_ok)
+        else:
+            P.add("iter %0 last %1", any_ok)
+            for _ in range(m - 1 - pos):
+                P.add("iter %0 prev %1 %1", any_ok)
+    else:
+        if iskey:
+            P.add("findkey %%0 %%%d %%1" % (30 + tj), expect_ok("found"))
+        elif where.endswith("cursor"):
+            P.add("findkey %%0 %%%d %%2" % (60 + tj), expect_ok("found"))
+            P.add("get %0 %2 %1", any_ok)
+        else:
+            P.add("get %%0 %%%d %%1" % (60 + tj), any_ok)
+    tdesc = "%s alloc=%d" % (ty_name(ty), DATA)
+    P.add("typeof %1", expect_ok(tdesc))
+    P.add("peek %1", expect_ok(subj[tj]))
+    silent_del = "del-nonheap-silent" in known()
+    for op in ops:
+        if op == "collect":
+            P.add("collect")
+        elif op == "write":
+            # all size(type) bytes are written through the handed-out pointer; a key is rewritten with its own bytes
+            if ty == "Int":
+                continue
+            b = (0x10 + tj) if iskey else (0xe0 + len(P.lines) % 16)
+            P.add("fill %%1 %02x" % b)
+            model[tj] = hexof(ty, b)
+        elif op in FREE_OPS:
+            nt = True
+            if op in ("delkeep", "delrootkeep") and silent_del:
+                P.add("%s %%1" % op, lambda o: None if (o == "ok" or o == "ok " or o.startswith("exc ResourceError") or o.startswith("exc ValueError")) and " depth=" not in o else "del of a non-heap object: " + o)
+            else:
+                P.add("%s %%1" % op, expect_exc("ResourceError", "ValueError"))
+        P.add("peek %1", expect_ok(model.get(tj, subj[tj])))
+        P.add("typeof %1", expect_ok(tdesc))
+        add_dump()
+    # the container is still usable: one more element, then delete it
+    j = tot
+    subj.append(mkobj(30 + j, T, ty, 0x10 + j))
+    if ismap:
+        oth.append(mkobj(60 + j, O, oty, 0x40 + j))
+    add_one("%0", j)
+    order.append(j)
+    add_dump()
+    P.add("del %0")
+    return P, True
+
+
+def any_ok(o):
+    return None if o.startswith("ok") else "failed: " + o
+
+
 def build_prog(case):
     """returns (Prog, nontrivial) or None when the combination does not exist"""
+    if case["obtain"] == "sized":
+        return build_sized(case)
     ob, et, n, ops = case["obtain"], case["et"], case["n"], case["ops"]
     P = Prog()
     pos = case["pos"] * n // 1001
@@ -149,8 +427,13 @@ def build_prog(case):
                     P.add("push %%0 %s" % x)
             P.add("del %4")
             P.add("zero %4")
+        via = case.get("via", "fwd")
         if ob.endswith("get"):
-            P.add("get %%0 i:%d %%1" % pos, expect_ok(lit_repr(LIT[et])))
+            P.add("get %%0 i:%d %%1" % (pos - n if via == "neg" else pos), expect_ok(lit_repr(LIT[et])))
+        elif via == "bwd":
+            P.add("iter %0 last %1")
+            for _ in range(n - 1 - pos):
+                P.add("iter %0 prev %1 %1")
         else:
             P.add("iter %0 init %1")
             for _ in range(pos):
@@ -203,6 +486,10 @@ def build_prog(case):
             P.add("zero %4")
         if iskey:
             P.add("findkey %%0 %s %%1" % LIT[et], expect_ok("found"))
+        elif case.get("via") == "cursor":
+            # the value through an iteration cursor (pointer to the embedded key): Table_Get's pointer fast path
+            P.add("findkey %%0 i:%d %%2" % pos, expect_ok("found"))
+            P.add("get %0 %2 %1", expect_ok(lit_repr(LIT[et])))
         else:
             P.add("get %%0 i:%d %%1" % pos, expect_ok(lit_repr(LIT[et])))
         exp_alloc, val_repr = DATA, lit_repr(LIT[et])
@@ -244,6 +531,36 @@ def build_prog(case):
         P.add("iter %0 init %1")
         exp_alloc, val_repr, writable = DATA, "i2", True
         cont_dump = lambda: ("repr %2", "L[%s]" % ",".join("i%d" % (2 * j + 2) for j in range(n)))
+    elif ob in VIEWS:
+        # the stack-class view object itself (what range() / slice() / ... hand out) under the freeing operations
+        if et != "Int":
+            return None
+        kind = ob[5:]
+        vals = list(range(1, n + 1))
+        P.add("new %%2 heap t:Array t:Int %s" % " ".join("i:%d" % v for v in vals))
+        P.add("new %3 heap t:List t:Int i:30 i:40 i:50")
+        if kind == "range":
+            P.add("stk %%1 range i:%d" % (n + 2))
+            val_repr = "R(0,%d,1)" % (n + 2)
+        elif kind == "slice":
+            P.add("stk %%1 slice %%2 i:%d _" % pos)
+            val_repr = "VSlice[%s]" % ",".join("i%d" % v for v in vals[pos:])
+        elif kind == "zip":
+            P.add("stk %1 zip %2 %3")
+            val_repr = "VZip[%s]" % ",".join("U[i%d,i%d]" % (a, b) for a, b in zip(vals, [30, 40, 50]))
+        elif kind == "enum":
+            P.add("stk %1 enum %2")
+            val_repr = "VZip[%s]" % ",".join("U[i%d,i%d]" % (i, v) for i, v in enumerate(vals))
+        elif kind == "filter":
+            P.add("stk %1 filter %2 fn:even")
+            val_repr = "VFilter[%s]" % ",".join("i%d" % v for v in vals if v % 2 == 0)
+        else:
+            P.add("stk %1 map %2 fn:id")
+            val_repr = "VMap[%s]" % ",".join("i%d" % v for v in vals)
+        exp_type = {"range": "Range", "slice": "Slice", "zip": "Zip", "enum": "Zip", "filter": "Filter", "map": "Map"}[kind]
+        exp_alloc, writable = STACK, False
+        cont_dump = lambda: ("repr %2", "A[%s]" % ",".join("i%d" % v for v in vals))
+        et = "View"
     elif ob == "tuple-elem":
         if et == "Tuple":
             return None
@@ -362,7 +679,13 @@ def run_case(ctx, case):
         return Result(None, False, ["combination-does-not-exist"], None)
     P, nt = r
     fail, obs = P.run(ctx.executor("ex_vm"))
-    return Result(fail, nt, ["obtain=" + case["obtain"], "et=" + case["et"]] + (["hist=" + case["hist"]] if "hist" in case else []), None)
+    if case["obtain"] == "sized":
+        ev = ["obtain=sized", "sized:ty=" + case["ty"], "sized:where=" + case["where"]]
+        if "hist" in case:
+            ev += ["sized:hist=" + case["hist"], "sized:oty=" + case.get("oty", "Int")]
+        return Result(fail, nt, ev, None)
+    return Result(fail, nt, ["obtain=" + case["obtain"], "et=" + case["et"]] + (["hist=" + case["hist"]] if "hist" in case else []) +
+                  (["via=" + case["via"]] if "via" in case else []), None)
 
 
 def extra_phase(ctx, tier, stats, sample_fn):
@@ -383,6 +706,19 @@ def extra_phase(ctx, tier, stats, sample_fn):
                     cells += 1
                     if res.fail:
                         fails.append((case, res.fail))
+    # the sized family: every type x way x history once (5 elements, the middle one under test)
+    for ti, ty in enumerate(SIZED_TY):
+        for where in SIZED_WHERE:
+            for hist in (SIZED_HIST if "-" in where else ["direct"]):
+                case = {"obtain": "sized", "ty": ty, "where": where, "n": 5, "pos": 500,
+                        "ops": ["write"] + FREE_OPS + ["collect", "write"] + FREE_OPS[2:]}
+                if "-" in where:
+                    case.update(hist=hist, oty=SIZED_TY[(ti + 3 + len(where)) % len(SIZED_TY)])
+                res = run_case(ctx, case)
+                stats.add(case, res, sample_fn)
+                cells += 1
+                if res.fail:
+                    fails.append((case, res.fail))
     return {"fails": fails[:10], "extra": {"matrix_cells_enumerated": cells, "matrix_failures": len(fails)}}
 
 
